@@ -156,6 +156,24 @@ class World:
         return out
 
 
+def _opaque(x):
+    """an object of a library-private helper class (not a function, class, module or builtin value)"""
+    import types
+    if isinstance(x, (type, types.FunctionType, types.BuiltinFunctionType, types.MethodType, types.ModuleType)):
+        return False
+    return hasattr(x, "__dict__") or hasattr(type(x), "__slots__")
+
+
+def _fields(x):
+    out = {}
+    for klass in type(x).__mro__:
+        for name in getattr(klass, "__slots__", ()) or ():
+            if isinstance(name, str) and hasattr(x, name):
+                out[name] = getattr(x, name)
+    out.update(getattr(x, "__dict__", {}))
+    return sorted(out.items())
+
+
 def real_state(w):
     """
     Canonical form of the real metaclass / class state: EVERY non-dunder, non-callable attribute of
@@ -216,7 +234,13 @@ def real_state(w):
         elif isinstance(x, (list, tuple, set, frozenset)):
             for e in x:
                 scan(e, path + ("[]",))
+        elif _opaque(x) and id(x) not in seen_scan:
+            # a helper object of the library (a registry class, ...): its attributes are state too
+            seen_scan.add(id(x))
+            for k, v in _fields(x):
+                scan(v, path + ("." + k,))
 
+    seen_scan = set()
     for name, val in state_attrs():
         scan(val, (name,))
     order = {id(o): n for n, o in enumerate(w.keep)}
@@ -244,9 +268,23 @@ def real_state(w):
             return ("set",) + tuple(sorted(repr(cv(e)) for e in x))
         if is_inst(x):
             return ("inst",) + lab(x)
+        if _opaque(x):
+            if id(x) in stack:
+                return ("cycle", type(x).__name__)
+            stack.append(id(x))
+            try:
+                return ("obj", type(x).__name__) + tuple((k, cv(v)) for k, v in _fields(x))
+            finally:
+                stack.pop()
         return ("other", type(x).__name__)
 
-    return tuple((name, cv(val)) for name, val in state_attrs())
+    stack = []
+    real = tuple((name, cv(val)) for name, val in state_attrs())
+    # the reference model's state is part of the canonical form as well: however the library keeps its
+    # mappings (a representation this walk cannot see into would otherwise merge every state into one),
+    # two states with different live mappings are different states
+    model = tuple(tuple(sorted((repr(k), lab(o)) for k, o in w.model[c].items())) for c in range(len(w.cls)))
+    return (real, model)
 
 
 def _unused_real_state_tail(w):
